@@ -5,8 +5,8 @@
    the empty list included); the statements hold for every such list, with no length bound.
    `vm_for_each`, `load_char`, `byte_len`, `char_len` are the VM's three code paths over the
    BYTES of the string (Model/Utf8.v). *)
-From Aelys Require Import Base.Tactics Extracted.Utf8Select Model.Utf8 Model.Utf8Natives Model.Selection
-                          Proofs.Utf8Proofs Proofs.Utf8NativesProofs.
+From Aelys Require Import Base.Tactics Extracted.Utf8Select Model.Utf8 Model.Utf8Natives Model.Utf8Find Model.Selection
+                          Proofs.Utf8Proofs Proofs.Utf8NativesProofs Proofs.Utf8FindProofs.
 Local Open Scope N_scope.
 
 (* The iteration theorems are stated for the StringForLoop path (vm_for_each SelString).  For
@@ -169,6 +169,15 @@ Theorem C20_byte_at_range : forall s (i : Z),
   ((0 <= i < Z.of_nat (byte_len s))%Z -> nat_byte_at s i = Z.of_N (nth (Z.to_nat i) s 0))
   /\ ((i < 0 \/ Z.of_nat (byte_len s) <= i)%Z -> nat_byte_at s i = (-1)%Z).
 Proof. exact byte_at_lemma. Qed.
+
+(* find(s, needle) answers in BYTES (documented); the answer is always a character boundary: the
+   byte offset of the k-th item, for a k at which the needle's characters occur in s *)
+Theorem C20_find_is_item_boundary : forall cs ns p, all_valid cs -> all_valid ns -> ns <> [] ->
+  find_go (utf8 ns) (utf8 cs) 0 = Some p ->
+  exists k, (k + length ns <= length cs)%nat
+            /\ p = byte_len (utf8 (firstn k cs))
+            /\ firstn (length ns) (skipn k cs) = ns.
+Proof. exact find_boundary_lemma. Qed.
 
 (* non-vacuity: "cafe" + combining acute, an astral emoji, NUL, and every width boundary *)
 Example C20_nonvacuous :
